@@ -33,6 +33,7 @@ func TestMatrix(t *testing.T) {
 		}
 
 		hk.RunEnum(t, "s3/pair-matrix-sample", ps, Run)
+		hk.RunEnum(t, "s3/dyn-matrix", DynMatrix(), Run)
 
 		return
 	}
@@ -43,4 +44,5 @@ func TestMatrix(t *testing.T) {
 
 	hk.RunEnum(t, "s3/matrix", m, Run)
 	hk.RunEnum(t, "s3/pair-matrix", PairMatrix(), Run)
+	hk.RunEnum(t, "s3/dyn-matrix", DynMatrix(), Run)
 }
